@@ -204,6 +204,84 @@ def _enclosing_try_handling(eng, node, names):
     return False
 
 
+def rule_hessian_norm_reciprocals_are_guarded(eng, rep, rule="C08-5.the-step-solvers-do-not-divide-by-a-norm-of-the-model-hessian-that-can-vanish"):
+    """A finite model is not enough for a finite step: the model Hessian 2 J'J is the zero matrix whenever the fitted Jacobian is (a constant objective, equal residuals at
+    all interpolation points).  A step length 1/||H|| is then infinite, inf * 0 is NaN, the step is NaN and scipy.linalg.norm(d) in the main loop raises ValueError out of
+    solve.  In the projected step solvers every division whose denominator is (a local defined as) a norm of the Hessian parameter must be floored, added to a positive
+    quantity, or reached only through a test that excludes zero."""
+    from .common import expand_locals
+    from ..norm import atom_of, const_value
+    n = 0
+    for fid in ("trust_region.ctrsbox_pgd", "trust_region.ctrsbox_sfista"):
+        fi = eng.fn(fid)
+        cfg = eng.cfg(fi)
+        hpar = fi.posparams[2]
+
+        def is_hnorm(e):
+            return isinstance(e, ast.Call) and ekey(e.func).split(".")[-1] == "norm" and e.args and isinstance(e.args[0], ast.Name) and e.args[0].id == hpar
+
+        for node in eng.prog.own_nodes(fi):
+            if not (isinstance(node, ast.BinOp) and isinstance(node.op, ast.Div)):
+                continue
+            den = node.right
+            name = den.id if isinstance(den, ast.Name) else None
+            try:
+                at = cfg.ast_of(cfg.cfg_node(node))
+            except Exception:
+                continue
+            defs = []
+            if name is not None:
+                for dn in cfg.defs_reaching(at, name):
+                    ds = cfg.ast_of(dn)
+                    if isinstance(ds, ast.Assign) and is_hnorm(ds.value):
+                        defs.append(dn)
+            elif is_hnorm(den):
+                defs = [None]
+            if not defs:
+                continue
+            n += 1
+            site = eng.where(fi, at if isinstance(at, ast.stmt) else node)
+            here = cfg.cfg_node(node)
+            bad = False
+            for dn in defs:
+                if dn is None:
+                    bad = True
+                    break
+                redefs = [k for k in cfg.g.nodes if k != dn and name in cfg.defs_of(k)[0]]
+
+                def edge_ok(a, b, e):
+                    if cfg.kind(a) != "cond" or e.get("label") not in (True, False):
+                        return True
+                    atm = atom_of(cfg.ast_of(a), e["label"])
+                    if atm.rhs is None:
+                        return True
+                    if isinstance(atm.lhs, ast.Name) and atm.lhs.id == name and const_value(atm.rhs) is not None:
+                        c, left = const_value(atm.rhs), True
+                    elif isinstance(atm.rhs, ast.Name) and atm.rhs.id == name and const_value(atm.lhs) is not None:
+                        c, left = const_value(atm.lhs), False
+                    else:
+                        return True
+                    z = 0.0
+                    if atm.op == "eq":
+                        return z == c
+                    if atm.op == "ne":
+                        return z != c
+                    if atm.op == "lt":
+                        return (z < c) if left else (c < z)
+                    if atm.op == "le":
+                        return (z <= c) if left else (c <= z)
+                    return True
+                if cfg.path_avoiding(dn, here, redefs, edge_ok=edge_ok) is not None:
+                    bad = True
+            if bad:
+                rep.bad(rule, site, "%s|division-by-hessian-norm|%s" % (fid, name or "norm"),
+                        "`%s` divides by `%s` = ||%s||, which is 0 for a constant model (J = 0, so H = 2 J'J = 0): the step becomes NaN and scipy.linalg.norm(d) in the main loop "
+                        "raises ValueError out of solve" % (short(node, 40), short(den, 20), hpar))
+            else:
+                rep.ok(rule, site, "`%s`: reached only where ||%s|| != 0" % (short(node, 40), hpar))
+    rep.require_count(rule, "divisions by a norm of the model Hessian in the projected step solvers", n, 1)
+
+
 def run(eng, rep):
     rep.explain("C08: decision tables of every selection guard over {None, NaN, lo<hi} (T6) -- a NaN candidate never replaces a finite holder, a finite "
                 "candidate replaces a NaN holder, an empty slot is filled, the guard never raises; arg-min over stored objectives is NaN-aware; no try "
@@ -219,3 +297,4 @@ def run(eng, rep):
     rep.guarded(rule_exception_transparency, eng, rep)
     rep.guarded(rule_logging_code_is_exception_neutral, eng, rep)
     rep.guarded(rule_step_solvers_get_a_finite_model, eng, rep)
+    rep.guarded(rule_hessian_norm_reciprocals_are_guarded, eng, rep)
